@@ -95,8 +95,38 @@ def fraction_forms(v, u, c, default):
     return F
 
 
+def _scribble(o):
+    """The caller edits, in place, the values of an object it has built (its own object: a legitimate edit)."""
+    if not isinstance(o, Array):
+        return False
+    try:
+        v = o.values
+    except Exception:
+        return False
+    if isinstance(v, list):
+        if isinstance(o, FixedArray):
+            if not v:
+                return False
+            v[0] = 123.0
+        else:
+            v.append(123.0)
+        return True
+    if isinstance(v, np.ndarray) and v.size and v.flags.writeable:
+        v.fill(123.0)
+        return True
+    return False
+
+
 def _family(part, sig, forms, check=None):
-    """build every form; all must be pairwise == (both directions, != consistent)"""
+    """build every form; all must be pairwise == (both directions, != consistent); then the caller edits the
+    values of the objects it got and builds the family once more: what is built must not depend on that"""
+    n = _family1(part, sig, forms, check, True)
+    if n < 0:
+        _family1(part, sig + ":built again after the caller edited the values of the first objects", forms, None, False)
+    return abs(n)
+
+
+def _family1(part, sig, forms, check, edit):
     objs = []
     for name, f in forms:
         part.count("evaluations")
@@ -116,7 +146,11 @@ def _family(part, sig, forms, check=None):
                 part.violation(sig + ":" + na + " vs " + nb + ":not equal", {"a": repr(a), "b": repr(b), "a_category": a.GetCategory(), "b_category": b.GetCategory()})
     if check and objs:
         check(objs[0][1])
-    return len(objs)
+    edited = False
+    if edit:
+        for _n, o in objs:
+            edited = _scribble(o) or edited
+    return -len(objs) if edited else len(objs)
 
 
 def _snip(u, c):
